@@ -81,12 +81,16 @@ class SchedHarness:
         ntask = cfg['n']
         self.tasks = [Probe(f't{i}', cfg['outcomes'][i], self.log) for i in range(ntask)]
         self.hard, self.soft = DepGraph(), DepGraph()
-        for tsk in self.tasks:
-            self.hard.add_node(tsk)
-            self.soft.add_node(tsk)
-        for i, j, kind in cfg['edges']:
-            (self.hard if kind == 'h' else self.soft).add_dependency(self.tasks[i], on=self.tasks[j])
-            self.tasks[i].deps.append(self.tasks[j])
+        nest = cfg.get('nest')
+        if nest:
+            self._build_nested(cfg, nest)
+        else:
+            for tsk in self.tasks:
+                self.hard.add_node(tsk)
+                self.soft.add_node(tsk)
+            for i, j, kind in cfg['edges']:
+                (self.hard if kind == 'h' else self.soft).add_dependency(self.tasks[i], on=self.tasks[j])
+                self.tasks[i].deps.append(self.tasks[j])
         envmod = mod['valjean.cosette.env']
         self.env = envmod.Env()
         for i, status, clocks in cfg.get('init', ()):
@@ -97,6 +101,31 @@ class SchedHarness:
         self.backend = mod['valjean.cosette.backends.queue'].QueueScheduling(cfg['workers'])
         self.res = {}
 
+    def _build_nested(self, cfg, nest):
+        """Hard graph with the tasks `nest['members']` inside one DepGraph used as a node (a documented feature): hard edges
+        between members live inside it, an outer task depending on a member depends on the graph-node, a member depending on an
+        outer task makes the graph-node depend on it.  `nest['first']`: is the graph-node added before or after the plain tasks."""
+        members = set(nest['members'])
+        inner = DepGraph()
+        for i in sorted(members):
+            inner.add_node(self.tasks[i])
+        outer = [self.tasks[i] for i in range(cfg['n']) if i not in members]
+        for node in ([inner] + outer) if nest.get('first') else (outer + [inner]):
+            self.hard.add_node(node)
+        for tsk in self.tasks:
+            self.soft.add_node(tsk)
+        for i, j, kind in cfg['edges']:
+            if kind == 's':
+                self.soft.add_dependency(self.tasks[i], on=self.tasks[j])
+            elif i in members and j in members:
+                inner.add_dependency(self.tasks[i], on=self.tasks[j])
+            else:
+                self.hard.add_dependency(inner if i in members else self.tasks[i], on=inner if j in members else self.tasks[j])
+        # what each task may look at when it starts = its dependencies in the flattened graph (expand_nested)
+        for i, j, _kind in expand_nested(cfg):
+            if self.tasks[j] not in self.tasks[i].deps:
+                self.tasks[i].deps.append(self.tasks[j])
+
     def main(self):
         mod = mods()
         sched = mod['valjean.cosette.scheduler'].Scheduler(hard_graph=self.hard, soft_graph=self.soft,
@@ -104,6 +133,23 @@ class SchedHarness:
         try:
             self.res['env'] = sched.schedule(env=self.env)
             for _ in range(self.cfg.get('calls', 1) - 1):       # the same Scheduler / backend object used again
+                self.res['env'] = sched.schedule(env=self.env)
+            if 'second' in self.cfg:
+                # the same backend object and the same task objects, another graph, a fresh environment
+                env1 = self.env.dictionary
+                self.res['first'] = ([status_name(env1.get(t.name, {})) for t in self.tasks], [t.count for t in self.tasks])
+                del self.log[:]
+                self.hard, self.soft = DepGraph(), DepGraph()
+                for tsk in self.tasks:
+                    tsk.count, tsk.deps = 0, []
+                    self.hard.add_node(tsk)
+                    self.soft.add_node(tsk)
+                for i, j, kind in self.cfg['second']['edges']:
+                    (self.hard if kind == 'h' else self.soft).add_dependency(self.tasks[i], on=self.tasks[j])
+                    self.tasks[i].deps.append(self.tasks[j])
+                self.env = mod['valjean.cosette.env'].Env()
+                sched = mod['valjean.cosette.scheduler'].Scheduler(hard_graph=self.hard, soft_graph=self.soft,
+                                                                    backend=self.backend)
                 self.res['env'] = sched.schedule(env=self.env)
         except Exception as exc:  # pylint: disable=broad-except
             self.res['exc'] = type(exc).__name__
@@ -122,12 +168,34 @@ def state_fn(rtm, har):
     return hash((thr, sts, tuple(getattr(x, 'name', None) for x in que.items), que.unfinished))
 
 
+def expand_nested(cfg):
+    """Edges between tasks meant by a configuration with a graph-node: an outer task that depends on the graph-node depends on
+    the members nobody inside depends on (they come last); the members without inner dependencies (they come first) depend on
+    whatever the graph-node depends on."""
+    nest = cfg.get('nest')
+    if not nest:
+        return [tuple(e) for e in cfg['edges']]
+    members = set(nest['members'])
+    inner = [(i, j) for i, j, k in cfg['edges'] if k == 'h' and i in members and j in members]
+    last = [m for m in sorted(members) if not any(j == m for _, j in inner)]
+    first = [m for m in sorted(members) if not any(i == m for i, _ in inner)]
+    out = []
+    for i, j, kind in cfg['edges']:
+        if kind == 's' or (i in members) == (j in members):
+            out.append((i, j, kind))
+        elif j in members:                       # outer i depends on the graph-node
+            out += [(i, m, 'h') for m in last]
+        else:                                    # the graph-node depends on outer j
+            out += [(m, j, 'h') for m in first]
+    return sorted(set(out))
+
+
 # ------------------------------------------------------------------ reference model (C02)
 def reference(cfg):
     """Final status and execution count of every task, from the graph and the outcomes only."""
     ntask = cfg['n']
     deps = {i: [] for i in range(ntask)}
-    for i, j, kind in cfg['edges']:
+    for i, j, kind in expand_nested(cfg):
         deps[i].append((j, kind))
     final, count = {}, {}
     todo = list(range(ntask))
@@ -175,7 +243,7 @@ def oracle(exe, cfg):
             bad.append((f'C03|alive-at-return|{_shape(cfg)}', f"threads alive when schedule() came back: {har.res['alive']}"))
         que = har.res.get('queue')
         # the stop sentinels are never task_done()'d: `unfinished` legitimately equals their number
-        if que is not None and (que[0] != 0 or que[1] > cfg['workers'] * cfg.get('calls', 1)):
+        if que is not None and (que[0] != 0 or que[1] > cfg['workers'] * (cfg.get('calls', 1) + ('second' in cfg))):
             bad.append((f'C03|queue-not-empty|{_shape(cfg)}', f"queue (items, unfinished) = {que} at return"))
     for thr in exe.rt.threads:
         if thr.crashed is not None and thr is not exe.rt.main and kind != 'quiescent':
@@ -211,17 +279,27 @@ def oracle(exe, cfg):
                                 f'{name} started, {dname} is DONE but its update is not (fully) readable: '
                                 f'entry={ent!r} glob={glob!r}'))
     # ---- C02: final status map and execution counts equal the reference
-    if ('init' not in cfg or not cfg['init']) and cfg.get('calls', 1) == 1:
+    if 'second' in cfg and 'first' in har.res:
         final, count = reference(cfg)
+        if final is not None:
+            for i, tsk in enumerate(har.tasks):
+                if har.res['first'][0][i] != final[i] or har.res['first'][1][i] != count[i]:
+                    bad.append((f'C02|status|first-run|exp={final[i]}|got={har.res["first"][0][i]}',
+                                f'first run: {tsk.name} ended {har.res["first"][0][i]} after {har.res["first"][1][i]} execution(s), '
+                                f'reference says {final[i]} / {count[i]}'))
+    if ('init' not in cfg or not cfg['init']) and cfg.get('calls', 1) == 1:
+        refcfg = dict(cfg, edges=cfg['second']['edges']) if 'second' in cfg else cfg
+        rtag = '|second-graph-same-backend' if 'second' in cfg else ''
+        final, count = reference(refcfg)
         if final is not None and kind == 'quiescent' and 'env' in har.res:
             env = har.env.dictionary
             for i, tsk in enumerate(har.tasks):
                 got = status_name(env.get(tsk.name, {}))
                 if got != final[i]:
-                    bad.append((f'C02|status|{cfg["outcomes"][i]}|exp={final[i]}|got={got}',
+                    bad.append((f'C02|status|{cfg["outcomes"][i]}|exp={final[i]}|got={got}{rtag}',
                                 f'{tsk.name} ended {got}, reference says {final[i]}'))
                 if tsk.count != count[i]:
-                    bad.append((f'C02|exec-count|exp={count[i]}|got={tsk.count}',
+                    bad.append((f'C02|exec-count|exp={count[i]}|got={tsk.count}{rtag}',
                                 f'{tsk.name} executed {tsk.count} times, reference says {count[i]}'))
         elif final is not None and 'exc' in har.res:
             bad.append((f'C02|schedule-raised|{har.res["exc"]}', f'schedule() raised {har.res["exc"]} on an acyclic graph'))
@@ -238,4 +316,9 @@ def _shape(cfg):
         extra += '|cyclic'
     if cfg.get('calls', 1) > 1:
         extra += f"|calls={cfg['calls']}"
+    if 'second' in cfg:
+        extra += '|second-graph'
+    if cfg.get('nest'):
+        extra += '|graph-node'
+
     return f"n{cfg['n']}|{kinds}|{outs}|w{cfg['workers']}{extra}"
